@@ -74,7 +74,8 @@ def malformed(rng):
     if x < 0.5:                                                    # inline commands
         variants = [b"PING\r\n", b"ping a b\r\n", b"SET k 'a b' c\r\n", b'SET "k k" v\r\n', b" \r\n", b"\r\n", b"\n", b"GET k\n",
                     b"SET k a\\ b\r\n", b"ECHO '\r\n", b"x", b"x y", b"NX nx COUNT 5\r\n", b"\t\tPING\r\n", b"SET  k\t v \r\n",
-                    b"'abc' d\r\n", b"a\rb c\r\n", b"a \\", b"GET k", b"\\ \r\n"]
+                    b"'abc' d\r\n", b"a\rb c\r\n", b"a \\", b"GET k", b"\\ \r\n",
+                    b'RPUSH k first "" tail\r\n', b'"" a\r\n', b"'' a\r\n", b'SET k ""\r\n', b'""\r\n', b'a "" \r\n', b'"" ""\r\n', b'x "\\"" y\r\n', b'"a""b"\r\n']
         return rng.choice(variants) + (base if rng.random() < 0.5 else b"")
     if x < 0.75:                                                   # flip / delete / insert a byte
         b = bytearray(base)
